@@ -36,7 +36,7 @@ def long_file(rng):
     """a file with long instructions: many atoms in restraints, many free variables, explicit scattering factors, long free text"""
     natoms = rng.randint(8, 70)
     names = ['C%d' % (i + 1) for i in range(natoms)]
-    nfv = rng.randint(2, 30)
+    nfv = rng.randint(2, 30) if rng.random() < 0.85 else rng.choice([8, 9])      # eight or nine fit on one line
     lines = ['TITL ' + ' '.join(rng.choice(['long', 'well-known', 'title', 'x-ray', 'of', 'compound', 'P-1', 'a' * rng.randint(1, 30)]) for _ in range(rng.randint(1, 14)))[:rng.choice([40, 70, 74, 75])],
              'CELL 0.71073 10.5 11.2 12.3 90 95.5 90', 'ZERR 4 0.001 0.002 0.003 0.01 0.02 0.03', 'LATT 1', 'SYMM -X, 1/2+Y, 1/2-Z']
     expl = rng.random() < 0.5
@@ -85,8 +85,13 @@ def long_file(rng):
             toks = ['OMIT', '-3', '55.5']       # else: OMIT with a (long) list of atom names, an instruction the library keeps as text
         body.append(toks)
     osf = rng.choice([1.0, 1.0, rng.uniform(0.11111, 1.99999)])        # the overall scale factor is seldom exactly one: lines of full width
+    # forms that earlier seeded changes needed (kept in every second file): explicit zeros, a text-kept instruction over three and more lines
+    if rng.random() < 0.5:
+        body.append(['DAMP', rng.choice(['0', '0.5', '0.7']), '0'])
+    if rng.random() < 0.5 and natoms >= 30:
+        body.append(['OMIT'] + rng.sample(names, rng.randint(30, natoms)))
     fv = ['%.5f' % (osf if i == 0 else rng.uniform(0.05, 0.95)) for i in range(nfv)]
-    one_line = nfv <= 9 and rng.random() < 0.6
+    one_line = nfv <= 9 and (rng.random() < 0.6 or nfv >= 8)
     if one_line:
         lines.append('FVAR ' + ' '.join(fv))        # up to nine free variables fit on one line of 80 columns
         if rng.random() < 0.6:
@@ -273,11 +278,15 @@ def run(ctx):
         if st != 'ok' or inn:
             common.add_violation(ctx, 'a valid file with long instructions raises', case, 'ok', '%s %s' % (st, inn))
             continue
-        if k % 4 and rng.random() < 0.5:
+        fvl_ = [l for l in text.split('\n') if l.upper().startswith('FVAR')]
+        if k % 4 and (rng.random() < 0.5 or (len(fvl_) == 1 and len(fvl_[0].split()) > 8)):
             # long text put into the file through the editing API has to be wrapped like everything else
             names = [a.name for a in shx.atoms.all_atoms if not a.qpeak]
             with contextlib.redirect_stdout(io.StringIO()):
                 r_ = rng.random()
+                fvl = [l for l in text.split('\n') if l.upper().startswith('FVAR')]
+                if len(fvl) == 1 and len(fvl[0].split()) > 8:
+                    r_ = 0.0       # eight and more free variables on one physical line: the block has to go behind that ONE line
                 if r_ < 0.25:
                     # a block of several lines right behind the first FVAR line (in front of a second FVAR line, if the file has one)
                     shx.insert_frag_fend_entry([['O1', 3, 0.1, 0.2, 0.3], ['C1', 1, 0.25, 0.35, 0.45]], [1, 1, 1, 90, 90, 90])
